@@ -21,6 +21,18 @@ Case vf_generate() {
   // NULL object pointers are outside this property's statement (C09 covers them for walks)
   c.tree.null_ptr[0] = c.tree.null_ptr[1] = false;
   c.tree.null_manyp[0] = c.tree.null_manyp[1] = 0;
+  // sub-tree ports whose name spans several components ("cd/ef/", "a#2/b/"): Ports::dispatch matches them like any
+  // other pattern; the callback is harness-made (the library's recursion macros cut exactly one component)
+  for (int t = 0; t < 5; t++)
+    for (auto &p : c.tree.tables[(size_t)t].ports)
+      if (p.kind == pt::RECUR && vf::chance(25)) {
+        p.kind = pt::MULTI;
+        std::string nm;
+        int comps = vf::pick<int>(2, 3);
+        bool enumerated = vf::chance(40);
+        for (int k = 0; k < comps; k++) { nm += pt::gen_stem(0); if (enumerated && vf::chance(50)) nm += "#" + std::to_string(vf::pick<int>(1, 3)); nm += "/"; }
+        p.name = nm;
+      }
   int n = vf::pick<int>(4, 12);
   for (int i = 0; i < n; i++) {
     std::string tg;
